@@ -1475,6 +1475,12 @@ class Evaluator:
                     return self.slice_view(base, e[1], n)
                 raise Outside("multi-dimensional subscript of a 1-D array")
             i = self.eval(n.slice)
+            if isinstance(i, tuple):
+                # a[(None, .., slice(None), ..)] and the like: left to the contract (broadcast views)
+                h = self.ex.contract.handlers.get("arr.tuple_index")
+                if h is None:
+                    raise Outside("tuple index into a 1-D array")
+                return h(self.ex, self.st, base, i, n, self)
             j = self.norm_index(base, i, n)
             return self.st.select(base, j)
         if is_z3(base) and z3.is_array(base):
